@@ -3,6 +3,7 @@ package main
 import (
 	"fmt"
 	"go/ast"
+	"go/types"
 	"strings"
 )
 
@@ -409,6 +410,7 @@ func runC16(c *Ctx) {
 			r.Fail("group/transitions", key, p.posStr(fd.Pos()), "the child counter is not subscribed")
 			continue
 		}
+		checkMirrorSubscriptionLives(r, p, pkg, info, fd, key)
 		lf := newFuncCFG(p, info, lit.Body, key+"$subscriber")
 		oldZero := lf.RelEdges(func(rel Rel) bool { return rel.Op == "==" && rel.L == "0" && rel.R == "oldValue" })
 		newZero := lf.RelEdges(func(rel Rel) bool { return rel.Op == "==" && rel.L == "0" && rel.R == "newValue" })
@@ -450,4 +452,147 @@ func runC16(c *Ctx) {
 		}
 	}
 	_ = strings.Contains
+}
+
+// checkMirrorSubscriptionLives: the subscription that mirrors a child's pending counter into the
+// group's PendingChildrenCounter must stay attached for as long as the child can still reach
+// zero: its 0->n transition has been counted, the n->0 transition must be delivered. The
+// unsubscribe handle returned by Subscribe is therefore either dropped, or - if it is kept - never
+// invoked anywhere in the package (directly, or after being stored in a field of the group and
+// read back). A detach of a replaced pool with a task in flight leaves the group counter > 0 for
+// ever: WaitChildren / Shutdown hang although every task finished.
+func checkMirrorSubscriptionLives(r *Reporter, p *Prog, pkg string, info *types.Info, fd *ast.FuncDecl, key string) {
+	var handle types.Object
+	dropped := false
+	ast.Inspect(fd.Body, func(n ast.Node) bool {
+		switch x := n.(type) {
+		case *ast.ExprStmt:
+			if cl, ok := x.X.(*ast.CallExpr); ok && strings.HasSuffix(exprKey(cl.Fun), "Counter.Subscribe") {
+				dropped = true
+			}
+		case *ast.AssignStmt:
+			if len(x.Rhs) == 1 && len(x.Lhs) == 1 {
+				if cl, ok := ast.Unparen(x.Rhs[0]).(*ast.CallExpr); ok && strings.HasSuffix(exprKey(cl.Fun), "Counter.Subscribe") {
+					if id, isId := x.Lhs[0].(*ast.Ident); isId && id.Name != "_" {
+						handle = objOfIdent(info, id)
+					} else {
+						dropped = true
+					}
+				}
+			}
+		}
+		return true
+	})
+	rule := "group/mirror-subscription-lives"
+	if handle == nil {
+		if dropped {
+			r.Pass(rule, key, p.posStr(fd.Pos()), "the unsubscribe handle is dropped: the mirror lives as long as the child")
+		} else {
+			r.Fail(rule, key, p.posStr(fd.Pos()), "the mirroring Subscribe call was not found")
+		}
+		return
+	}
+	// fields of the receiver that the handle is stored into
+	tainted := map[string]bool{}
+	var calls []string
+	ast.Inspect(fd.Body, func(n ast.Node) bool {
+		cl, ok := n.(*ast.CallExpr)
+		if !ok {
+			return true
+		}
+		if id, isId := ast.Unparen(cl.Fun).(*ast.Ident); isId && info.Uses[id] == handle {
+			calls = append(calls, p.posStr(cl.Pos())+": "+id.Name+"() in "+key)
+		}
+		for _, a := range cl.Args {
+			if objOfIdent(info, a) == handle {
+				if se, ok := ast.Unparen(cl.Fun).(*ast.SelectorExpr); ok {
+					if inner, ok := ast.Unparen(se.X).(*ast.SelectorExpr); ok {
+						tainted[inner.Sel.Name] = true
+					}
+				}
+			}
+		}
+		return true
+	})
+	ast.Inspect(fd.Body, func(n ast.Node) bool {
+		if as, ok := n.(*ast.AssignStmt); ok {
+			for i, rhs := range as.Rhs {
+				if objOfIdent(info, rhs) == handle && i < len(as.Lhs) {
+					if se, ok := ast.Unparen(as.Lhs[i]).(*ast.SelectorExpr); ok {
+						tainted[se.Sel.Name] = true
+					}
+					if ix, ok := ast.Unparen(as.Lhs[i]).(*ast.IndexExpr); ok {
+						if se, ok := ast.Unparen(ix.X).(*ast.SelectorExpr); ok {
+							tainted[se.Sel.Name] = true
+						}
+					}
+				}
+			}
+		}
+		return true
+	})
+	// anywhere in the package: a call of a func value that was read from a tainted field
+	mentionsTainted := func(e ast.Expr) bool {
+		hit := false
+		ast.Inspect(e, func(m ast.Node) bool {
+			if se, ok := m.(*ast.SelectorExpr); ok && tainted[se.Sel.Name] {
+				hit = true
+			}
+			return !hit
+		})
+		return hit
+	}
+	for _, g := range p.AllFuncDecls(pkg) {
+		if g.Body == nil || strings.HasSuffix(p.Fset.Position(g.Pos()).Filename, "_test.go") {
+			continue
+		}
+		fromTainted := map[types.Object]bool{}
+		ast.Inspect(g.Body, func(n ast.Node) bool {
+			switch x := n.(type) {
+			case *ast.AssignStmt:
+				for _, rhs := range x.Rhs {
+					if mentionsTainted(rhs) {
+						for _, l := range x.Lhs {
+							if o := objOfIdent(info, l); o != nil {
+								fromTainted[o] = true
+							}
+						}
+					}
+				}
+			case *ast.RangeStmt:
+				if mentionsTainted(x.X) {
+					for _, l := range []ast.Expr{x.Key, x.Value} {
+						if l != nil {
+							if o := objOfIdent(info, l); o != nil {
+								fromTainted[o] = true
+							}
+						}
+					}
+				}
+			}
+			return true
+		})
+		ast.Inspect(g.Body, func(n ast.Node) bool {
+			cl, ok := n.(*ast.CallExpr)
+			if !ok {
+				return true
+			}
+			if id, isId := ast.Unparen(cl.Fun).(*ast.Ident); isId && fromTainted[info.Uses[id]] {
+				calls = append(calls, p.posStr(cl.Pos())+": "+id.Name+"() in "+funcKey(pkg, g))
+			}
+			if len(cl.Args) == 0 && mentionsTainted(cl.Fun) {
+				if _, isSig := info.TypeOf(cl.Fun).(*types.Signature); isSig {
+					if se, ok := ast.Unparen(cl.Fun).(*ast.SelectorExpr); !ok || info.Selections[se] == nil || info.Selections[se].Kind() != types.MethodVal {
+						calls = append(calls, p.posStr(cl.Pos())+": "+exprKey(cl.Fun)+"() in "+funcKey(pkg, g))
+					}
+				}
+			}
+			return true
+		})
+	}
+	if len(calls) > 0 {
+		r.Fail(rule, key, p.posStr(fd.Pos()), "the subscription that mirrors the child's pending counter into the group can be cancelled ("+calls[0]+"): a child whose 0->n transition was already counted then never delivers n->0 and the group's pending-children counter stays above zero for ever", calls...)
+	} else {
+		r.Pass(rule, key, p.posStr(fd.Pos()), "the unsubscribe handle is kept but never invoked in this package")
+	}
 }
